@@ -20,7 +20,7 @@ RULE = ("Hypothesis-generated polygons of 3..12 vertices (thorough up to "
         "fractions.Fraction on the float coordinates; points closer than "
         "1e-6*size to the boundary are not judged (counted). Metamorphic: "
         "rotating/reversing/closing the vertex list, translating by dyadic "
-        "offsets (up to 2^26: polygons far from the origin) and scaling by "
+        "offsets (up to 2^34: polygons far from the origin) and scaling by "
         "powers of two never change the answer, nor does storing a lattice "
         "polygon (and whole-number points) as uint8/16/32/64, int8 or int16; "
         "cells_inside_polygon returns exactly the cells whose centre the "
@@ -108,9 +108,11 @@ def cases(draw, tier):
             # dyadic offsets up to 2^26 (UTM-like: the polygon is tiny
             # compared with its distance to the origin)
             "shift": [draw(st.sampled_from([0., 1., -8., 0.5, 1024.,
-                                            2.0**20, 2.0**26, -2.0**24])),
+                                            2.0**20, 2.0**26, -2.0**24,
+                                            2.0**30, -2.0**34])),
                       draw(st.sampled_from([0., -1., 16., 0.25, 2.0**22,
-                                            -2.0**26, 2.0**26]))],
+                                            -2.0**26, 2.0**26, -2.0**30,
+                                            2.0**34]))],
             "scale": draw(st.sampled_from([1., 2., 0.5, 1024., 2.0**-10])),
             "grid": [draw(st.integers(1, 8)), draw(st.integers(1, 8)),
                      draw(st.sampled_from([1., 0.5, 2.])),
